@@ -61,8 +61,8 @@ type crasher struct {
 	idle     chan struct{}
 	checkErr error
 	stats    map[string]int
-	taken  int
-	off    atomic.Bool
+	taken    int
+	off      atomic.Bool
 	// stats
 	classes map[string]int
 	// one-shot injected fault (see armFault)
